@@ -16,7 +16,7 @@ pub const FAULT_CLASSES: &[&str] = &[
     "RedeclarationAsType", "RedeclarationAsProcedure", "RedeclarationAsParameter", "RedeclarationAsVariable",
     "MustBeAReferenceParameter", "MainIsNotAProcedure", "MainMustNotHaveParameters", "MissingTrailingSemic", "MissingClosing",
     "UnaryMinusNonInteger", "AssignmentLevels", "UndefinedVariableNested", "NotAVariableNested", "UndefinedVariableInArgs",
-    "AnonymousArrayIdentity", "CallOfShadowedProcedure", "RedeclarationOtherType",
+    "AnonymousArrayIdentity", "CallOfShadowedProcedure", "RedeclarationOtherType", "FaultInIndex",
 ];
 
 /// Inject one violation of rule `class` into a well-typed program.  Returns the new token list and the
@@ -101,6 +101,17 @@ pub fn inject(rng: &mut Rng, prog: &Prog, class: &str) -> Option<(Vec<Tok>, usiz
         "UnaryMinusNonInteger" if !shadowed("printi") => Some((vec!["printi", "(", "-", "(", "1", "<", "2", ")", ")", ";"].iter().map(|s| s.to_string()).collect(), 2, 8, "ArithmeticOperatorNonInteger")),
         "IndexingNonArray" => int_var.clone().map(|x| (vec![x, "[".into(), "0".into(), "]".into(), ":=".into(), "1".into(), ";".into()], 0, 4, class)),
         "IndexingWithNonInteger" => arr_var1.clone().map(|a| (vec![a, "[".into(), "1".into(), "<".into(), "2".into(), "]".into(), ":=".into(), "1".into(), ";".into()], 2, 5, class)),
+        // the fault sits directly in an index position: the index has no type, and the indexing rule itself is not violated
+        "FaultInIndex" => arr_var1.clone().and_then(|a| {
+            let s = |v: &[&str]| v.iter().map(|t| t.to_string()).collect::<Vec<String>>();
+            match rng.below(5) {
+                0 => Some((s(&[&a, "[", "undefv", "]", ":=", "1", ";"]), 2, 3, "UndefinedVariable")),
+                1 if !shadowed("exit") => Some((s(&[&a, "[", "exit", "]", ":=", "1", ";"]), 2, 3, "NotAVariable")),
+                2 => int_var.clone().map(|x| (s(&[&a, "[", &x, "[", "0", "]", "]", ":=", "1", ";"]), 2, 6, "IndexingNonArray")),
+                3 => int_var.clone().map(|x| (s(&[&x, ":=", &a, "[", "undefv", "]", ";"]), 4, 5, "UndefinedVariable")),
+                _ => Some((s(&[&a, "[", &a, "[", "undefv", "]", "]", ":=", "1", ";"]), 4, 5, "UndefinedVariable")),
+            }
+        }),
         "MissingTrailingSemic" => Some((vec![";", "exit", "(", ")"].iter().map(|s| s.to_string()).collect(), 1, 4, class)),
         "MissingClosing" => Some((vec!["exit", "(", ";"].iter().map(|s| s.to_string()).collect(), 0, 3, class)),
         _ => None,
@@ -195,7 +206,8 @@ pub fn inject(rng: &mut Rng, prog: &Prog, class: &str) -> Option<(Vec<Tok>, usiz
         return Some((toks, at + lo, at + lo + 1, kind.to_string()));
     }
     if let Some((tpl, lo, hi)) = decl {
-        let at = if class == "MainIsNotAProcedure" { 0 } else { toks.len() };
+        // `type main` in front of everything or behind everything (its declaration offset is then > 0)
+        let at = if class == "MainIsNotAProcedure" && rng.chance(1, 2) { 0 } else { toks.len() };
         let ins: Vec<Tok> = tpl.iter().map(|t| tok(t, nd)).collect();
         toks.splice(at..at, ins);
         return Some((toks, at + lo, at + hi, class.to_string()));
